@@ -186,15 +186,20 @@ def audit_round(rec):
     pfm = rec["pfm"]
     if rec["ty"] == "to_humans":
         if not (head >= pfm * (1 - 1e-4) - 1e-9 and head <= pfm * (1 + 1e-6) + 1e-7):
-            fail("optimum", f"headline {head!r} vs first-solve objective {pfm!r}: relative {(head - pfm) / pfm if pfm else 0!r}")
+            # CBC accepts a row violated by about 1e-7 (absolute): for an optimum below ~1e-3 percent the floor row
+            # 0.99995*v <= consumed_m can be missed by more than 0.01 % of v although by less than 1e-6 percentage points
+            near_zero = abs(head - pfm) <= 1e-6
+            fail("optimum-near-zero" if near_zero else "optimum",
+                 f"headline {head!r} vs first-solve objective {pfm!r}: relative {(head - pfm) / pfm if pfm else 0!r}, "
+                 f"absolute {head - pfm!r}")
         c = rec["consumed"]
         if c is None or len(c) != n:
             fail("optimum", "consumed_kcals variables missing")
         else:
-            if not relclose(min(c), head, 1e-6, 1e-6):
+            if not (relclose(min(c), head, 1e-6) or abs(min(c) - head) <= 1e-7):
                 fail("optimum", f"min consumed_kcals variable {min(c)!r} vs headline {head!r}")
             for m in range(n):
-                if not relclose(c[m], sums[m], 1e-6, 1e-6):
+                if not (relclose(c[m], sums[m], 1e-6) or abs(c[m] - sums[m]) <= 1e-7):
                     fail("optimum", f"month {m}: consumed_kcals {c[m]!r} vs per-food sum {sums[m]!r}")
                     break
     else:
